@@ -8,9 +8,10 @@
 // ref.ValueEqual(decoded a, decoded b), without error.
 // Family "self": reflexivity, equality with the deep copy (SetRoot into a
 // fresh message) and with every other layout of the same value.
-// Family "same-message": a and b as two fields of one struct, so that
+// Family "caps" (capability-bearing values only): a and b as two fields of one struct, so that
 // capability pointers are compared inside one message — with a table whose
-// two entries are different clients, the same client twice, or no table.
+// two entries are different clients, the same client twice, or no table; and
+// in two messages of which one has no capability table.
 package main
 
 import (
@@ -243,7 +244,7 @@ func main() {
 	vlib.Main(vlib.Spec{
 		ID:    "C17",
 		Level: "exploration",
-		Rule: "pairs: all ordered pairs of the universe U17 (every leaf object of the shared universe — all list kinds incl. every bit list of length <= 3, void/bit/byte lists of equal length, primitive and composite lists, structs of every section size — plus null, capabilities and 2-object trees; thorough: all of U(2)) x 4 layouts each, both argument orders; self: reflexive / deep copy / re-layout; same-message: capability identity inside one message under three table states. Every pair is distinct, so every case is non-trivial; outcome classes count (kind pair, result) combinations.",
+		Rule:  "pairs: all ordered pairs of the universe U17 (every leaf object of the shared universe — all list kinds incl. every bit list of length <= 3, void/bit/byte lists of equal length, primitive and composite lists, structs of every section size — plus null, capabilities and 2-object trees; thorough: all of U(2)) x 4 layouts each, both argument orders; self: reflexive / deep copy / re-layout; caps: all ordered pairs of the capability-bearing values as two fields of one message under three capability-table states (distinct clients, same client twice, no table), and in two messages of which one has no table. Every pair is distinct, so every case is non-trivial; outcome classes count (kind pair, result) combinations.",
 		Assumptions: []string{
 			"ref.ValueEqual is the doc comment of Equal transcribed; where that text does not decide (two empty lists of different primitive kinds, bit list vs struct list, capabilities of two messages that both lack a table entry) no verdict is demanded",
 			"capability identity is that of the clients placed in Message.CapTable (ErrorClient clients; AddRef gives the same capability)",
@@ -254,6 +255,13 @@ func main() {
 			u := universe17(tier)
 			n := int64(len(u))
 			np := len(ref.Presets)
+			var capIdx []int
+			for i, v := range u {
+				if v.HasCap() {
+					capIdx = append(capIdx, i)
+				}
+			}
+			nc := int64(len(capIdx))
 			return []vlib.Family{
 				{
 					Name: "pairs", N: n * n,
@@ -314,13 +322,11 @@ func main() {
 					Describe: func(i int64) interface{} { return u[i].String() },
 				},
 				{
-					Name: "same-message", N: n * n,
+					// only the capability-bearing values: everything else is
+					// covered by family pairs, here capability identity matters
+					Name: "caps", N: nc * nc,
 					Run: func(i int64, r *vlib.Rec) {
-						ia, ib := i/n, i%n
-						va, vb := u[ia], u[ib]
-						if !va.HasCap() || !vb.HasCap() {
-							return // covered by family pairs; here only capability identity matters
-						}
+						va, vb := u[capIdx[i/nc]], u[capIdx[i%nc]]
 						r.NonTrivial()
 						l := ref.DefaultLayout(ref.StructV(nil, va, vb))
 						for variant, tab := range [][]*capnp.Client{
@@ -355,9 +361,23 @@ func main() {
 							judge(r, name, a, b, capEq)
 							judge(r, name, b, a, flip(capEq))
 						}
+						// two messages, one of them without capability table: a
+						// real client never equals a missing one.  (Both tables
+						// missing: the text does not decide; recorded only.)
+						never := func(i, j uint32) ref.Verdict { return ref.VNotEqual }
+						la, lb := ref.DefaultLayout(va), ref.DefaultLayout(vb)
+						withTab := load(la, []*capnp.Client{clientX, clientY})
+						noTabA, noTabB := load(la, nil), load(lb, nil)
+						judge(r, "two-messages/one-without-table", withTab, noTabB, never)
+						judge(r, "two-messages/one-without-table", noTabB, withTab, never)
+						if eq, err := capnp.Equal(noTabA.root, noTabB.root); err != nil {
+							r.Failf("two-messages/no-tables/error", "Equal: %v\n a = %s\n b = %s", err, va, vb)
+						} else {
+							r.Outcome(fmt.Sprintf("two-messages/no-tables:%v", eq))
+						}
 					},
 					Describe: func(i int64) interface{} {
-						return map[string]string{"a": u[i/n].String(), "b": u[i%n].String()}
+						return map[string]string{"a": u[capIdx[i/nc]].String(), "b": u[capIdx[i%nc]].String()}
 					},
 				},
 			}
